@@ -499,6 +499,141 @@ def snippet(what, spec, data, bad=()):
     return PY_TEMPLATE.format(what=what, spec=json.dumps(spec), data=json.dumps(data), bad=list(bad))
 
 
+
+# ---------------------------------------------------------------------------------------------
+# extract: source-form table of OpProgram.__call__ (regenerated on every run)
+# ---------------------------------------------------------------------------------------------
+
+MUTATORS = {"append", "extend", "insert", "pop", "remove", "clear", "sort", "reverse", "update", "setdefault",
+            "popitem", "add", "discard", "__setitem__", "__delitem__", "__setattr__", "__delattr__", "fill", "put",
+            "resize", "itemset", "setflags", "sort", "partition", "appendleft", "popleft", "extendleft", "move_to_end"}
+
+
+def scan_call_sites(src):
+    """Every statement of OpProgram.__call__ that stores into / deletes from / calls a mutating method on an
+    object, with whether that object is `self`, an attribute of `self`, or a local alias of one
+    (`env = self._env`; a Call such as `list(self.constants)` makes a fresh object and breaks the alias)."""
+    import ast
+    tree = ast.parse(src)
+    fn = None
+    for node in ast.walk(tree):
+        if isinstance(node, ast.ClassDef) and node.name == "OpProgram":
+            for b in node.body:
+                if isinstance(b, ast.FunctionDef) and b.name == "__call__":
+                    fn = b
+    if fn is None:
+        raise RuntimeError("OpProgram.__call__ not found")
+    selfname = fn.args.args[0].arg
+    alias = {selfname}
+
+    def root(e):
+        while isinstance(e, (ast.Attribute, ast.Subscript, ast.Starred)):
+            e = e.value
+        return e.id if isinstance(e, ast.Name) else None
+
+    def is_alias_expr(e):
+        """expression that denotes (part of) the object's own state without copying"""
+        if isinstance(e, ast.Name):
+            return e.id in alias
+        if isinstance(e, (ast.Attribute, ast.Subscript)):
+            return root(e) in alias
+        if isinstance(e, ast.IfExp):
+            return is_alias_expr(e.body) or is_alias_expr(e.orelse)
+        if isinstance(e, ast.BoolOp):
+            return any(is_alias_expr(v) for v in e.values)
+        if isinstance(e, ast.NamedExpr):
+            return is_alias_expr(e.value)
+        return False
+
+    sites = []
+
+    def site(node, kind, target):
+        r = root(target)
+        touches = r in alias
+        sites.append((node.lineno, kind, ast.unparse(target), touches))
+
+    def bind(target, value):
+        if isinstance(target, ast.Name):
+            if value is not None and is_alias_expr(value):
+                alias.add(target.id)
+            elif target.id != selfname:
+                alias.discard(target.id)
+        elif isinstance(target, (ast.Tuple, ast.List)):
+            for t in target.elts:
+                bind(t, value if value is not None and is_alias_expr(value) else None)
+
+    def visit(stmts):
+        for st in stmts:
+            for node in ast.walk(st) if not isinstance(st, (ast.For, ast.While, ast.If, ast.With, ast.Try)) else [st]:
+                pass
+            if isinstance(st, ast.Assign):
+                for t in st.targets:
+                    if isinstance(t, (ast.Attribute, ast.Subscript)):
+                        site(st, "store", t)
+                    bind(t, st.value)
+            elif isinstance(st, ast.AnnAssign) and st.value is not None:
+                if isinstance(st.target, (ast.Attribute, ast.Subscript)):
+                    site(st, "store", st.target)
+                bind(st.target, st.value)
+            elif isinstance(st, ast.AugAssign):
+                site(st, "augstore", st.target)
+            elif isinstance(st, ast.Delete):
+                for t in st.targets:
+                    if isinstance(t, (ast.Attribute, ast.Subscript)):
+                        site(st, "delete", t)
+            # mutating method calls and setattr/delattr anywhere in the statement's own expressions
+            exprs = []
+            if isinstance(st, (ast.For, ast.AsyncFor)):
+                exprs = [st.iter]
+                bind(st.target, st.iter if is_alias_expr(st.iter) else None)
+            elif isinstance(st, ast.While):
+                exprs = [st.test]
+            elif isinstance(st, ast.If):
+                exprs = [st.test]
+            elif isinstance(st, (ast.With, ast.AsyncWith)):
+                exprs = [i.context_expr for i in st.items]
+            elif isinstance(st, ast.Try):
+                exprs = []
+            else:
+                exprs = [st]
+            for e in exprs:
+                for node in ast.walk(e):
+                    if isinstance(node, ast.Call):
+                        f = node.func
+                        if isinstance(f, ast.Attribute) and f.attr in MUTATORS:
+                            site(node, "method:" + f.attr, f.value)
+                        elif isinstance(f, ast.Name) and f.id in ("setattr", "delattr") and node.args:
+                            site(node, f.id, node.args[0])
+                    elif isinstance(node, ast.NamedExpr):
+                        bind(node.target, node.value)
+            for field in ("body", "orelse", "finalbody"):
+                sub = getattr(st, field, None)
+                if isinstance(sub, list) and sub and isinstance(sub[0], ast.stmt):
+                    visit(sub)
+            for h in getattr(st, "handlers", []) or []:
+                visit(h.body)
+
+    visit(fn.body)
+    return sites
+
+
+def extract(ctx):
+    from ..common import REPO, LEAN
+    src = (REPO / "funsor" / "ops" / "program.py").read_text()
+    sites = scan_call_sites(src)
+    q = lambda t: t.replace("\\", "\\\\").replace('"', '\\"')
+    body = ",\n".join(f'  ⟨{ln}, "{q(kind)}", "{q(tgt)}", {"true" if touches else "false"}⟩' for ln, kind, tgt, touches in sites)
+    text = ("/-\n  Gen/C18CallSites.lean — GENERATED by fv/harness/c18.py (extract) from funsor/ops/program.py on every run of\n"
+            "  ./check C18.  Do not edit.  One entry per statement of OpProgram.__call__ that stores into, deletes from or\n"
+            "  calls a mutating method on an object; `touchesSelf` = the object is `self`, reached through `self`, or a local\n"
+            "  alias of such an object (a Call like `list(self.constants)` makes a fresh object).\n-/\n"
+            "namespace FV.Gen.C18\n\nstructure CallSite where\n  line : Nat\n  kind : String\n  target : String\n"
+            "  touchesSelf : Bool\n  deriving Repr, DecidableEq\n\ndef callSites : List CallSite := [\n" + body + "\n]\n\nend FV.Gen.C18\n")
+    f = LEAN / "FunsorVerif" / "Gen" / "C18CallSites.lean"
+    if not f.exists() or f.read_text() != text:
+        f.write_text(text)
+    ctx.extra["call_sites"] = [list(x) for x in sites]
+
 # ---------------------------------------------------------------------------------------------
 # one compiler case
 # ---------------------------------------------------------------------------------------------
@@ -1396,6 +1531,260 @@ def check_trace(ctx, spec, use_driver=True):
     ctx.case(sample=wit if nt else None, nontrivial_key=("trace", json.dumps(spec)) if nt else None)
 
 
+
+# ---------------------------------------------------------------------------------------------
+# call histories on ONE program object (compiled, pickled, traced): the answer to a binding must not
+# depend on the calls made before it, rejected calls included
+# ---------------------------------------------------------------------------------------------
+
+HISTORY_TEMPLATE = """
+# replay for C18 (call history on one program object, {what})
+import json, pickle, numpy as np
+from collections import OrderedDict
+import funsor, funsor.ops as ops
+funsor.set_backend("numpy")
+from funsor.terms import Variable, Number, Unary, Binary, Tuple
+from funsor.tensor import Tensor
+from funsor.cnf import Contraction
+from funsor.domains import Real, Reals, Bint
+from funsor.interpretations import reflect, lazy
+from funsor.compiler import compile_funsor
+from funsor.ops.tracer import trace_function
+spec = json.loads({spec!r})
+steps = json.loads({steps!r})
+mode = {mode!r}
+def build(spec):
+    b = []
+    with {{"reflect": reflect, "lazy": lazy}}[spec["interp"]]:
+        for nd in spec["nodes"]:
+            k = nd[0]
+            if k == "var": f = Variable(nd[1], Real if nd[2] == "real" else (Reals[nd[3]] if nd[2] == "reals" else Bint[nd[3]]))
+            elif k == "num": f = Number(nd[1])
+            elif k == "tensor": f = Tensor(np.array(nd[1], dtype=np.float64))
+            elif k == "un": f = Unary(getattr(ops, nd[1]), b[nd[2]])
+            elif k == "bin": f = Binary(getattr(ops, nd[1]), b[nd[2]], b[nd[3]])
+            elif k == "contr": f = Contraction(ops.null, getattr(ops, nd[1]), frozenset(), tuple(b[i] for i in nd[2]))
+            elif k == "tuple": f = Tuple(tuple(b[i] for i in nd[1]))
+            b.append(f)
+    return b[spec["root"]]
+def extract(x):
+    return tuple(extract(a) for a in x.args) if isinstance(x, Tuple) else x.data
+def same(a, b):
+    if isinstance(a, tuple) or isinstance(b, tuple):
+        return isinstance(a, tuple) and isinstance(b, tuple) and len(a) == len(b) and all(same(x, y) for x, y in zip(a, b))
+    a, b = np.asarray(a, dtype=float), np.asarray(b, dtype=float)
+    return a.shape == b.shape and bool(np.allclose(a, b, rtol=1e-11, atol=1e-11, equal_nan=True))
+if mode.startswith("traced"):
+    def fn(**kw):
+        vals = [kw[name] for name, _ in spec["inputs"]]
+        res = []
+        get = lambda a: (a[1] if isinstance(a, list) else (res[a - 100] if a >= 100 else vals[a]))
+        for ins in spec["instrs"]:
+            res.append(getattr(ops, ins[0])(*[get(a) for a in ins[1:]]))
+        r = spec["ret"]
+        return res[r - 100] if r >= 100 else vals[r]
+    conv = lambda d: {{k: (v if isinstance(v, str) else np.array(v, dtype=np.float64)) for k, v in d.items()}}
+    oracle = lambda d: fn(**d)
+    obj = trace_function(fn, conv(steps[0][1]))
+else:
+    expr = build(spec)
+    kinds = {{nd[1]: nd[2] for nd in spec["nodes"] if nd[0] == "var"}}
+    conv = lambda d: {{k: (v if isinstance(v, str) else np.array(v, dtype=(np.int64 if kinds.get(k) == "bint" else np.float64))) for k, v in d.items()}}
+    oracle = lambda d: extract(funsor.reinterpret(expr(**d)))
+    obj = compile_funsor(expr)
+if mode.endswith("pickle"):
+    obj = pickle.loads(pickle.dumps(obj))
+FAILS = False
+with np.errstate(all="ignore"):
+    for i, (kind, d) in enumerate(steps):
+        if kind == "repickle":
+            obj = pickle.loads(pickle.dumps(obj)); continue
+        kw = conv(d)
+        if kind == "valid":
+            want = oracle(kw)
+            try:
+                got = obj(**kw)
+            except Exception as e:
+                print("step", i, "valid call raised", repr(e)); FAILS = True; continue
+            okay = same(got, want)
+            print("step", i, "valid", "ok" if okay else ("WRONG: got %r want %r" % (got, want)))
+            FAILS = FAILS or not okay
+        else:
+            try:
+                r = obj(**kw); print("step", i, kind, "was ACCEPTED ->", r)
+                FAILS = FAILS or kind in ("extra", "missing")
+            except Exception as e:
+                print("step", i, kind, "rejected:", type(e).__name__)
+print("FAILS =", FAILS)
+"""
+
+
+def history_steps(valid, names, bad_name):
+    """valid = list of >= 6 json-able bindings.  The fixed shape of every history."""
+    b = valid
+    steps = [["valid", b[0]], ["valid", b[1]],
+             ["extra", dict(b[2], zz_extra=1.0)], ["valid", b[3]]]
+    if names:
+        last = names[-1]                                           # a missing kwarg that is NOT the first input
+        steps += [["missing", {k: v for k, v in b[4].items() if k != last}], ["valid", b[0]]]
+    if bad_name is not None:
+        steps += [["bad", dict(b[5], **{bad_name: "not-an-array"})], ["valid", b[2]]]
+    steps += [["extra", dict(b[1], zz_extra=1.0)], ["repickle", {}], ["valid", b[4]],
+              ["valid", b[5]], ["valid", b[5]]]
+    return steps
+
+
+def run_history(ctx, what, mode, obj, steps, conv, oracle, wit, py):
+    """Returns False when a failure was recorded."""
+    obj0 = obj
+    state0 = {k: (id(v), repr(v)[:200]) for k, v in vars(obj).items()}
+    with np.errstate(all="ignore"):
+        for i, (kind, d) in enumerate(steps):
+            if kind == "repickle":
+                obj = pickle.loads(pickle.dumps(obj))
+                continue
+            kw = conv(d)
+            if kind == "valid":
+                want = oracle(kw)
+                try:
+                    got = obj(**kw)
+                except Exception as e:
+                    ctx.fail("input", f"C18.history-{mode}-valid-call-raises", witness=dict(wit, step=i), got=repr(e),
+                             expected=jsonable(want), python=py)
+                    return False
+                if not same_value(got, want, 1e-11):
+                    ctx.fail("input", f"C18.history-{mode}-answer-depends-on-earlier-calls", witness=dict(wit, step=i),
+                             got=jsonable(got), expected=jsonable(want), python=py)
+                    return False
+                ctx.count("history:valid-call")
+            else:
+                try:
+                    r = obj(**kw)
+                except Exception as e:
+                    ctx.count(f"history:rejected-{kind}:{type(e).__name__}")
+                    continue
+                if kind in ("extra", "missing"):
+                    ctx.fail("input", f"C18.history-{mode}-accepts-{kind}-input", witness=dict(wit, step=i),
+                             got=jsonable(r), expected="ValueError", python=py)
+                    return False
+                ctx.count("history:bad-binding-accepted")
+    state1 = {k: (id(v), repr(v)[:200]) for k, v in vars(obj0).items()}
+    ctx.count("history:object-state-" + ("unchanged" if state0 == state1 else "CHANGED"))
+    return True
+
+
+def history_case(ctx, spec, rng):
+    try:
+        expr, _ = build(spec)
+    except Exception:
+        return False
+    if rk_any(spec, "btensor"):
+        return False
+    with np.errstate(all="ignore"):
+        try:
+            program = compile_funsor(expr)
+        except Exception:
+            return False
+        names = list(program.inputs)
+        if not names:
+            return False
+        # six bindings on which the two sides of the property are comparable (see check_case)
+        valid = []
+        for _ in range(40):
+            d = {k: v for k, v in gen_data(rng, spec).items() if k in expr.inputs}
+            npd = np_data(spec, d)
+            try:
+                want = extract_data(reinterpret(expr(**npd)))
+            except Exception:
+                continue
+            orc = spec_eval(spec, npd)[spec["root"]]
+            flat = []
+
+            def fl(v):
+                (flat.extend(np.ravel(np.asarray(v, dtype=np.float64))) if not isinstance(v, tuple) else [fl(x) for x in v])
+            fl(want)
+            if np.all(np.isfinite(flat)) and same_value(want, orc, 1e-9):
+                valid.append(d)
+            if len(valid) == 6:
+                break
+        if len(valid) < 6:
+            ctx.count("history:skip-no-comparable-bindings")
+            return False
+    kinds = {nd[1]: nd[2] for nd in spec["nodes"] if nd[0] == "var"}
+    conv = lambda d: {k: (v if isinstance(v, str) else np.array(v, dtype=(np.int64 if kinds.get(k) == "bint" else np.float64)))
+                      for k, v in d.items()}
+    oracle = lambda kw: extract_data(reinterpret(expr(**kw)))
+    steps = history_steps(valid, names, names[-1] if names else None)
+    for mode in ("compiled", "compiled-pickle"):
+        obj = program if mode == "compiled" else pickle.loads(pickle.dumps(program))
+        wit = {"spec": spec, "steps": steps, "mode": mode}
+        py = HISTORY_TEMPLATE.format(what=mode, spec=json.dumps(spec), steps=json.dumps(steps), mode=mode)
+        if not run_history(ctx, "compiled", mode, obj, steps, conv, oracle, wit, py):
+            return True
+    ctx.count(f"history:inputs:{len(names)}")
+    ctx.case(sample=None, nontrivial_key=("history", json.dumps([spec, steps])) if names and program.operations else None)
+    return True
+
+
+def rk_any(spec, kind):
+    return any(spec["nodes"][i][0] == kind for i in reachable_kinds(spec))
+
+
+def history_trace_case(ctx, tspec, rng):
+    fn = TraceFn(tspec)
+    conv = lambda d: {k: (v if isinstance(v, str) else np.array(v, dtype=np.float64)) for k, v in d.items()}
+    valid = []
+    for _ in range(6):
+        valid.append({name: ([rng.choice(VALS) for _ in range(shape)] if shape else rng.choice(VALS))
+                      for name, shape in tspec["inputs"]})
+    valid[0] = tspec["data"]
+    with np.errstate(all="ignore"):
+        try:
+            traced = trace_function(fn, conv(valid[0]))
+        except Exception:
+            ctx.count("history:trace-declined")
+            return
+    names = list(traced.inputs)
+    steps = history_steps(valid, names, names[-1] if names else None)
+    oracle = lambda kw: fn(**kw)
+    for mode in ("traced", "traced-pickle"):
+        obj = traced if mode == "traced" else pickle.loads(pickle.dumps(traced))
+        wit = {"trace_spec": tspec, "steps": steps, "mode": mode}
+        py = HISTORY_TEMPLATE.format(what=mode, spec=json.dumps(tspec), steps=json.dumps(steps), mode=mode)
+        if not run_history(ctx, "traced", mode, obj, steps, conv, oracle, wit, py):
+            return
+    ctx.case(sample=None, nontrivial_key=("history-trace", json.dumps([tspec, steps])) if len(tspec["instrs"]) >= 1 else None)
+
+
+def history_stream(ctx):
+    rng = ctx.rng
+    have = lambda: any(f.witness is not None for f in ctx.failures) or ctx.infra_errors
+    # fixed: x - y, the witness of Props/C18/History.lean
+    V = lambda n_, k="real", s_=0: ["var", n_, k, s_]
+    fixed = [{"nodes": [V("x"), V("y"), ["bin", "sub", 0, 1]], "root": 2, "interp": "reflect", "n": 0},
+             {"nodes": [V("x", "reals", 2), V("y"), ["num", 2.0], ["bin", "mul", 0, 2], ["bin", "sub", 3, 1], ["tuple", [4, 0]]],
+              "root": 5, "interp": "reflect", "n": 2}]
+    for spec in fixed:
+        history_case(ctx, spec, rng)
+        if have():
+            return
+    n = 60 if ctx.tier == "quick" else 600
+    done = tries = 0
+    while done < n and tries < 4 * n:
+        tries += 1
+        spec = gen_spec(rng, ctx.tier)
+        spec["wild"] = False
+        if sum(1 for nd in spec["nodes"] if nd[0] == "var") < 1:
+            continue
+        if history_case(ctx, spec, rng):
+            done += 1
+        if have():
+            return
+    for _ in range(40 if ctx.tier == "quick" else 400):
+        history_trace_case(ctx, gen_trace_spec(rng, ctx.tier), rng)
+        if have():
+            return
+
 # ---------------------------------------------------------------------------------------------
 # fixed structured cases (always run): the regions where numbering bugs live
 # ---------------------------------------------------------------------------------------------
@@ -1452,7 +1841,10 @@ def correspond(ctx):
                 "(+exp/sigmoid/tanh/log1p in 30% of cases), binary add/sub/mul/max/min/truediv, x op x, Contraction "
                 "without reduction, 55% tuple roots with nested / empty / element-sharing tuples; reflect or lazy; "
                 "dyadic data.  Plus fixed structured cases, a batched-Tensor stream (must decline), and straight-line "
-                "functions of ops for trace_function, and a parametrised-op stream: EVERY default / non-default parameter "
+                "functions of ops for trace_function, call HISTORIES on one compiled / pickled / traced program object (valid, valid, "
+                "rejected-extra, valid, rejected-missing(last input), valid, failing op on a bad binding, valid, rejected, "
+                "re-pickle, valid, valid, same again: every valid call gated against interpretation on its own binding), "
+                "and a parametrised-op stream: EVERY default / non-default parameter "
                 "combination of clamp, sum/prod/amax/amin/logsumexp/mean/all/any/argmax/argmin (axis x keepdims), std/var "
                 "(axis x ddof x keepdims), getslice, getitem(offset), reshape/transpose/permute/unsqueeze/expand, "
                 "triangular_solve/inv on a shared array sub-expression, plus random stacks of them, each compared four ways "
@@ -1472,6 +1864,8 @@ def correspond(ctx):
             done += 1
         if ctx.failures or ctx.infra_errors:
             break
+    if not (ctx.failures or ctx.infra_errors):
+        history_stream(ctx)
     if not (ctx.failures or ctx.infra_errors):
         inverse_stream(ctx)
     if not (ctx.failures or ctx.infra_errors):
@@ -1508,6 +1902,9 @@ def search(ctx, broken):
         check_trace(ctx, gen_trace_spec(rng, "thorough"), use_driver=False)
         if have():
             return
+    history_stream(ctx)
+    if have():
+        return
     inverse_stream(ctx, use_driver=False)
     if have():
         return
